@@ -1220,6 +1220,13 @@ fn delay_fn(site: u32) {
         c.set(x.0);
         v
     });
+    if mode >= 1000 {
+        // demonstration mode: always hold the targeted site for a while
+        if site as u64 == mode - 1000 {
+            std::thread::sleep(Duration::from_micros(500));
+        }
+        return;
+    }
     if mode >= 100 {
         if site as u64 == mode - 100 {
             match r % 4 {
